@@ -60,9 +60,12 @@ def strategy(tier):
                     st.sampled_from([False, False, False, True]),
                     st.sampled_from([False, False, False, True]))
     flood = st.tuples(tm, st.integers(5, 40), st.sampled_from([1, 2, 5, 10, 19, 21])).map(list)   # k datagrams gap ms apart: fast engine iterations
-    engine = st.builds(lambda h, d, b, r, f: {"part": "engine", "handlers": h, "datagrams": sorted(d), "bursts": sorted(b)[:2], "requests": r, "floods": f},
+    # the engine thread is held up (ms) between taking the k-th datagram off the send queue and handing it to the OS
+    slow = st.one_of(st.just([]), st.just([]), st.lists(st.sampled_from([0, 0, 0, 5, 15, 30, 45]), min_size=1, max_size=12))
+    engine = st.builds(lambda h, d, b, r, f, sl: dict({"part": "engine", "handlers": h, "datagrams": sorted(d), "bursts": sorted(b)[:2], "requests": r, "floods": f},
+                                                      **({"slow_sends": sl} if any(sl) else {})),
                        st.lists(handler, min_size=1, max_size=6), st.lists(dgram, max_size=14), st.lists(burst, max_size=2), st.lists(req, max_size=3),
-                       st.lists(flood, max_size=2))
+                       st.lists(flood, max_size=2), slow)
     fail = st.sampled_from(["req", "rep"])
     sfail = st.sampled_from(["req", "mid", "mid", "final", "all", "first"])
     nf = st.one_of(st.integers(0, 2), st.integers(0, 2), st.integers(0, 10))
@@ -71,7 +74,8 @@ def strategy(tier):
     hs = st.builds(lambda snap, a, c, f, s, segs, ex: dict({"part": "handshake", "snapshot": snap, "AVERS": a, "CURCH": c, "SFILE": f, "STATU": s, "segs": segs},
                                                            **({"exhaust": ex} if ex else {})),
                    st.integers(0, 60), st.lists(fail, max_size=10) | st.lists(fail, max_size=2), st.lists(fail, max_size=10) | st.lists(fail, max_size=2),
-                   st.lists(fail, max_size=10) | st.lists(fail, max_size=2), st.lists(sfail, max_size=10) | st.lists(sfail, max_size=3),
+                   st.lists(st.sampled_from(["req", "rep", "garble"]), max_size=10) | st.lists(st.sampled_from(["req", "rep", "garble"]), max_size=2),
+                   st.lists(sfail, max_size=10) | st.lists(sfail, max_size=3),
                    st.lists(st.integers(0, 25), min_size=1, max_size=4), exhaust)
     return st.one_of(engine, engine, hs)
 
@@ -108,7 +112,8 @@ def _part_engine(res, case):
     ev = []          # unified event log
     qlog = []        # (time, hid) in queue_send order
     eng = _Eng(ev)
-    info = {"multi": False, "retried": False, "bad_send": False, "refused": False}
+    eng.send_delays = [min(max(int(x), 0), 60) / 1000.0 for x in case.get("slow_sends", [])]
+    info = {"multi": False, "retried": False, "bad_send": False, "refused": False, "slow": bool(eng.send_delays)}
 
     with eng.patched():
         sock = eng.attach(GeckoUdpSocket())
@@ -269,6 +274,8 @@ def _part_engine(res, case):
         on_iteration(eng)
         final_handlers = list(sock._receive_handlers)
 
+    # every engine iteration may have been stretched by the longest hold-up before a send
+    SLOW = max([min(max(int(x), 0), 60) / 1000.0 for x in case.get("slow_sends", [])] + [0.0])
     # ---- O1: FIFO, paced
     sent = [(t, d) for t, d, _ in eng.sent]
     exp_order = []
@@ -368,9 +375,9 @@ def _part_engine(res, case):
         for tr in retries + r["failed"]:
             last = max(x for x in resets if x < tr - 1e-12)
             age = tr - last
-            if not (T < age <= T + ITER + 0.015):
+            if not (T < age <= T + ITER + 0.015 + SLOW):
                 res.fail("C20|request|retry-timing", f"{hid} (T={T}, N={N}): retry/failure at +{tr - r['created']:.3f}s, {age:.3f}s after the last transmission/reply "
-                         f"(expected within ({T}, {T + ITER + 0.015:.3f}])")
+                         f"(expected within ({T}, {T + ITER + 0.015 + SLOW:.3f}])")
                 break
         if handled:
             ta = handled[0]
@@ -379,14 +386,14 @@ def _part_engine(res, case):
                 res.fail("C20|request|retry-after-answer", f"{hid}: {len(late)} retransmission(s) queued after the reply was handled")
             if r["failed"]:
                 res.fail("C20|request|failed-after-answer", f"{hid}: on_retry_failed called although the request was answered")
-            if r["gone_at"] is None or r["gone_at"] > ta + 2 * ITER + 0.02:
+            if r["gone_at"] is None or r["gone_at"] > ta + 2 * ITER + 0.02 + 2 * SLOW:
                 res.fail("C20|request|not-removed-after-answer", f"{hid}: still registered {'for ever' if r['gone_at'] is None else f'{r['gone_at'] - ta:.3f}s'} after its reply")
         else:
             if len(retries) != N:
                 res.fail("C20|request|retry-count", f"{hid} (T={T}, N={N}) unanswered: {len(retries)} retransmissions, expected exactly {N}")
             if len(r["failed"]) != 1:
                 res.fail("C20|request|retry-failed-calls", f"{hid}: on_retry_failed called {len(r['failed'])} times, expected once after the last retry timed out")
-            elif r["gone_at"] is None or r["gone_at"] > r["failed"][0] + 2 * ITER + 0.02:
+            elif r["gone_at"] is None or r["gone_at"] > r["failed"][0] + 2 * ITER + 0.02 + 2 * SLOW:
                 res.fail("C20|request|not-removed-after-failure", f"{hid}: still registered after its retries were exhausted")
         if r["h"] in final_handlers:
             res.fail("C20|request|still-registered", f"{hid} is still in the handler list at the end")
@@ -435,6 +442,11 @@ class _LossPolicy:
             return "deliver"
         if kind in ("rep", "all"):
             return "drop"
+        if kind == "garble":
+            # a well-framed answer that the client's decoder rejects (the two file names disagree about the platform): the request
+            # stays unanswered and must be retried like a lost one
+            i0 = data.find(b"<DATAS>")
+            return ("replace", data[:i0 + 7] + b"FILES,inXM_C09.xml,inYE_S09.xml" + b"</DATAS></PACKT>") if i0 >= 0 else "drop"
         if kind == "final":
             return "drop" if i == n - 1 else "deliver"
         if kind == "first":
@@ -454,7 +466,7 @@ def _part_handshake(res, case):
     plan = {}
     for step in ("AVERS", "CURCH", "SFILE", "STATU"):
         kinds = list(case.get(step, []))[:10]
-        ok = ("req", "rep") if step != "STATU" else ("req", "mid", "final", "all", "first")
+        ok = ("req", "rep") + (("garble",) if step == "SFILE" else ()) if step != "STATU" else ("req", "mid", "final", "all", "first")
         if any(k not in ok for k in kinds):
             raise InvalidCase(case)
         plan[step] = kinds
@@ -535,6 +547,8 @@ def run_case(case) -> Result:
             res.label("engine-first-transmission-refused")
         if info.get("reuse"):
             res.label("engine-handler-object-queued-repeatedly")
+        if info.get("slow"):
+            res.label("engine-held-up-before-sendto")
     elif part == "handshake":
         plan = _part_handshake(res, case)
         lossy = sum(1 for v in plan.values() if v)
